@@ -93,12 +93,17 @@ Theorem C11_terminates : forall W,
   forall line log, exists r, dollar_loop (S (count_occ N.eq_dec line 36)) W line log = Ok r.
 Proof. exact dollar_loop_terminates. Qed.
 
-(** The embedded backquote spelling, one substitution. *)
-Theorem C11_backquote : forall W h c t item output log f,
+(** The embedded backquote spelling: one and two substitutions; since 8a189aa a command that does not plan
+    contributes the empty string (no stale output), each command is consulted once, in order. *)
+Theorem C11_backquote : forall W h c t item log f,
   ~ In 96 h -> ~ In 96 c -> c <> [] -> ~ In 96 t -> ~ In 10 t ->
-  dot_loop (S (S f)) W (h ++ 96 :: c ++ 96 :: t) item output log
-  = Ok (item ++ h ++ (match run_capture W c with Some o => trim o | None => output end) ++ t, log ++ [c]).
+  dot_loop (S (S f)) W (h ++ 96 :: c ++ 96 :: t) item log = Ok (item ++ h ++ trim (oracle_text W c) ++ t, log ++ [c]).
 Proof. exact dot_loop_one. Qed.
+Theorem C11_backquote_two : forall W h1 c1 h2 c2 t f,
+  ~ In 96 h1 -> ~ In 96 c1 -> c1 <> [] -> ~ In 96 h2 -> ~ In 10 h2 -> ~ In 96 c2 -> c2 <> [] -> ~ In 10 c2 -> ~ In 96 t -> ~ In 10 t ->
+  dot_loop (S (S (S f))) W (h1 ++ 96 :: c1 ++ 96 :: h2 ++ 96 :: c2 ++ 96 :: t) [] []
+  = Ok (h1 ++ trim (oracle_text W c1) ++ h2 ++ trim (oracle_text W c2) ++ t, [c1; c2]).
+Proof. exact dot_loop_two. Qed.
 
 (** Pass ORDER of do_expansion (composed with the real tokenizer): filename expansion runs BEFORE command
     substitution, so the output of an unquoted $(c) is inserted literally -- for every world, in particular
@@ -132,14 +137,8 @@ Theorem C11_variant_dq : forall W head cmd tail f,
   = Ok (Some (head ++ strip_nl (oracle_out W cmd) ++ tail), [cmd]).
 Proof. exact dollar_loop_v_dq. Qed.
 
-(** About two more PROPOSED repairs (Model/SubstVariant2.v; notes/C11-fix-4.patch, notes/C11-fix-5.patch).
-    fix-4: an embedded backquote command that does not plan yields the empty string -- no stale output. *)
-Theorem C11_variant_backquote : forall W h1 c1 h2 c2 t f,
-  ~ In 96 h1 -> ~ In 96 c1 -> c1 <> [] -> ~ In 96 h2 -> ~ In 10 h2 -> ~ In 96 c2 -> c2 <> [] -> ~ In 10 c2 -> ~ In 96 t -> ~ In 10 t ->
-  dot_loop_v (S (S (S f))) W (h1 ++ 96 :: c1 ++ 96 :: h2 ++ 96 :: c2 ++ 96 :: t) [] []
-  = Ok (h1 ++ trim (out_of W c1) ++ h2 ++ trim (out_of W c2) ++ t, [c1; c2]).
-Proof. exact dot_loop_v_two. Qed.
-(** fix-5 (balanced-parenthesis scan): two substitutions in one word are two runs, spliced in place. *)
+(** About the PROPOSED repair notes/C11-fix-5.patch (Model/SubstVariant2.v; NOT applied: the scan is not quote-aware).
+fix-5 (balanced-parenthesis scan): two substitutions in one word are two runs, spliced in place. *)
 Theorem C11_two_substitutions : forall W (pre a mid b post : str) f,
   ~ In 36 pre -> ~ In 36 mid -> a <> [] -> b <> [] -> ~ In 40 a -> ~ In 41 a -> ~ In 40 b -> ~ In 41 b ->
   ~ In 36 (trim (out_of W a)) ->
@@ -175,7 +174,7 @@ Print Assumptions C11_partial.
 Print Assumptions C11_unplannable.
 Print Assumptions C11_terminates.
 Print Assumptions C11_backquote.
+Print Assumptions C11_backquote_two.
 Print Assumptions C11_output_not_globbed.
 Print Assumptions C11_variant_dq.
-Print Assumptions C11_variant_backquote.
 Print Assumptions C11_two_substitutions.
